@@ -124,7 +124,8 @@ theorem C02_partial (F : BodyFn) (P : Project) (cfg : Cfg) (w : World) (picks : 
     rcases this with h | h <;> cases h
   · rw [hw] at hc ⊢
     rw [hr] at hup
-    exact final_scratch hwf (graphOK_of_createDag hwf hdag) hdry hso hloop rfl hc t hup t ht (UpTo.refl _)
+    have hg := graphOK_of_createDag hwf hdag
+    exact final_scratch hwf hg hdry hso hloop rfl (inv_of_coherent hwf hg hc) t hup t ht (UpTo.refl _)
 
 /-- **C02_inputs_untouched.** A build changes no file that no task produces (inputs, module
 files): the contents `Scratch` reads after the build are the ones the user left before it. -/
@@ -192,6 +193,96 @@ theorem C02_vs_fresh_build (F : BodyFn) (P : Project) (cfg cfg' : Cfg) (w w' : W
     · exact (graphOK_of_createDag hwf hdag).uniqueProducer
   have := scratch_functional hwf huniq (scratch_congr hwf hinputs hs) v' hs'
   rw [hv, hv', this]
+
+/-! ## histories over a changing project (add / remove / rewire tasks)
+
+`History` above keeps the project fixed.  `HistoryP` (`Lemmas/StateStructural.lean`) lets the project change
+by `PEdit`s (add a task, remove a task, replace a task's declaration: dependencies, products, `after`,
+marks, behaviour, module) between builds, in any number and interleaved with file edits.  The only
+link between files and project is required at the moment of a build: `DeclChangeTouchesSrc declOf P fs` —
+the declaration of each task is what its module file says (`declOf (content of t.src) t.id`), so a
+changed declaration comes with a changed module content.  The harness' generated projects satisfy it by
+construction (module text is rendered from the declarations); the import-time glob of finding F11b
+does not (`F11b_not_declChangeTouchesSrc`), and without it the statement is false (`C02_full_false`). -/
+
+/-- The role of the hypothesis: in two states of a project that both satisfy it, a task with the same
+module content has the same dependencies, products and `persist` mark.  Hence a task whose neighbour
+set changed has a changed module content, its recorded module row no longer matches, `RowsMatch`
+fails and the task runs again. -/
+theorem C02_declChange_touches_src {declOf : Nat → Nat → Option Decl} {P P' : Project} {fs fs' : FS}
+    (h : DeclChangeTouchesSrc declOf P fs) (h' : DeclChangeTouchesSrc declOf P' fs')
+    {t t' : TaskSpec} (ht : t ∈ P.tasks) (ht' : t' ∈ P'.tasks) (hid : t.id = t'.id) {c : Nat}
+    (hc : lookup fs t.src = some c) (hc' : lookup fs' t'.src = some c) :
+    t.deps = t'.deps ∧ t.prods = t'.prods ∧ t.persist = t'.persist :=
+  declChange_touches_src h h' ht ht' hid hc hc'
+
+/-- **F11b violates the hypothesis**: no reading of module contents explains both the project before
+(`shP`, dependencies `[10, 11]`) and after (`shP'`, dependencies `[10]`) the file disappeared — the
+module content (node 90, content 1) is the same. -/
+theorem F11b_not_declChangeTouchesSrc :
+    ¬ ∃ declOf, DeclChangeTouchesSrc declOf shP shW.fs ∧ DeclChangeTouchesSrc declOf shP' shR1.w.fs := by
+  rintro ⟨declOf, h, h'⟩
+  have := (declChange_touches_src h h' (t := shT) (t' := shT') (by simp [shP]) (by simp [shP']) rfl
+    (c := 1) (by decide) (by decide)).1
+  exact absurd this (by decide)
+
+/-- **Invariant over structural histories.** After any history of file edits, project edits, losses
+of the state table and builds, the project-free invariant `DbCoherentS` holds: project edits and file
+edits do not touch the table; a removed task's rows are never read again unless a task with that id
+and a module row declaring it re-appears; an added task has no rows; rows left from an earlier
+declaration of a task are read only together with the module row they were written with. -/
+theorem C02_history_structural_coherent {F : BodyFn} {declOf : Nat → Nat → Option Decl} {P : Project} {w : World}
+    (h : HistoryP F declOf P w) : DbCoherentS F declOf w.db :=
+  historyP_coherent h
+
+/-- **Inv for the current project after structural edits.** Whatever was added, removed or rewired:
+if the current project is what the current module files say, then for every (non-`persist`) task of
+the *current* project whose rows all match the current contents, each product holds
+`F t i (module content) (dependency contents)`. -/
+theorem C02_inv_structural (F : BodyFn) (declOf : Nat → Nat → Option Decl) (P : Project) (cfg : Cfg) (g : G)
+    (marks : List Nat) (w : World) (hhist : HistoryP F declOf P w) (hwf : WF P)
+    (hread : DeclChangeTouchesSrc declOf P w.fs) (hdag : createDag P cfg = .ok (g, marks)) :
+    Inv F P g w :=
+  inv_of_coherentS hwf (graphOK_of_createDag hwf hdag) hread (historyP_coherent hhist)
+
+/-- **C02_history_structural** (`C02_partial` over changing projects). After any history of file
+edits, project edits (add / remove / rewire tasks, any number), table losses and builds (any options,
+schedules, outcomes), take a non-dry build of the current project `P` — which collects (`WF`), has
+total bodies, and is what its module files say (`DeclChangeTouchesSrc`).  For every task `t` such
+that `t` and every task upstream of it is not marked `persist` and was reported SUCCESS or
+SKIP_UNCHANGED, each product of `t` holds its from-scratch content w.r.t. the *current* project. -/
+theorem C02_history_structural (F : BodyFn) (declOf : Nat → Nat → Option Decl) (P : Project) (cfg : Cfg)
+    (w : World) (picks : List Nat) (r : Result)
+    (hhist : HistoryP F declOf P w) (hwf : WF P) (hbt : BodiesTotal P)
+    (hread : DeclChangeTouchesSrc declOf P w.fs)
+    (h : build F P cfg w picks = .ok r) (hdry : cfg.dry = false) (t : TaskSpec) (ht : t ∈ P.tasks)
+    (hup : ∀ u ∈ P.tasks, UpTo P u.id t.id → u.persist = false ∧
+      ((u.id, Outcome.success) ∈ r.reports ∨ (u.id, Outcome.skipUnchanged) ∈ r.reports)) :
+    ∀ p i, (p, i) ∈ t.prods.zipIdx → ∃ v, lookup r.w.fs p = some v ∧ Scratch F P r.w.fs p v := by
+  have hc := coherentS_build F declOf P cfg w picks r hwf hbt hread h (historyP_coherent hhist)
+  have hread' := reads_build F P cfg w picks r hwf hread h
+  rcases build_cases h with ⟨_, _, hr, _⟩ | ⟨g, marks, so, so', s, hdag, hso, hloop, hw, _, hr, _, _⟩
+  · have := (hup t ht (UpTo.refl _)).2
+    rw [hr] at this
+    rcases this with h | h <;> cases h
+  · rw [hw] at hc hread' ⊢
+    rw [hr] at hup
+    have hg := graphOK_of_createDag hwf hdag
+    exact final_scratch hwf hg hdry hso hloop rfl (inv_of_coherentS hwf hg hread' hc) t hup t ht (UpTo.refl _)
+
+/-- **C02_success_structural.** … in particular, if the build reports every task of the current
+project as SUCCESS or SKIP_UNCHANGED, every declared product holds its from-scratch content. -/
+theorem C02_success_structural (F : BodyFn) (declOf : Nat → Nat → Option Decl) (P : Project) (cfg : Cfg)
+    (w : World) (picks : List Nat) (r : Result)
+    (hhist : HistoryP F declOf P w) (hwf : WF P) (hbt : BodiesTotal P)
+    (hread : DeclChangeTouchesSrc declOf P w.fs)
+    (h : build F P cfg w picks = .ok r) (hdry : cfg.dry = false)
+    (hall : ∀ u ∈ P.tasks, u.persist = false ∧
+      ((u.id, Outcome.success) ∈ r.reports ∨ (u.id, Outcome.skipUnchanged) ∈ r.reports)) :
+    ∀ t ∈ P.tasks, ∀ p i, (p, i) ∈ t.prods.zipIdx →
+      ∃ v, lookup r.w.fs p = some v ∧ Scratch F P r.w.fs p v :=
+  fun t ht => C02_history_structural F declOf P cfg w picks r hhist hwf hbt hread h hdry t ht
+    (fun u hu _ => hall u hu)
 
 /-! ## why "static dependency sets" is needed: the full statement is false of the current code -/
 
@@ -263,5 +354,16 @@ example : ∃ (g : G) (s1 : Sess), RowsMatch exP g s1.w 0 := by
   obtain ⟨_, g, _, _, _, _, _, s1, _, _, _, _, h⟩ :=
     C02_equiv_build exF exP {} exW3 [0, 1] exR3 0 exBuild3 (by decide)
   exact ⟨g, s1, h⟩
+
+/-- Structural history (non-vacuity of `C02_success_structural`): first build, input edited, second build,
+then task 1 is rewired (it additionally consumes the input 10) together with an edit of its module,
+third build of the *new* project: task 0 unchanged, task 1 runs, all products from scratch w.r.t. `exP'`. -/
+example : ∀ t ∈ exP'.tasks, ∀ p i, (p, i) ∈ t.prods.zipIdx →
+    ∃ v, lookup exR3'.w.fs p = some v ∧ Scratch exF exP' exR3'.w.fs p v := by
+  refine C02_success_structural exF exDeclOf exP' {} exW3 [0, 1] exR3' exHistoryP exWF' exBT' exReads' exBuild3' rfl ?_
+  intro u hu
+  rcases mem_exP' hu with rfl | rfl
+  · exact ⟨rfl, Or.inr (by decide)⟩
+  · exact ⟨rfl, Or.inl (by decide)⟩
 
 end Pytask
